@@ -63,13 +63,12 @@ func validLenC20(fixed bool, elemSize, n int) bool {
 	return n <= elemSize
 }
 
-// VerifC20_history: every history of <= N Add/Remove operations on a set of capacity 1..CAP, element size
-// ES, fixed or variable key length; keys symbolic with lengths 0..ES+1; hash = T[key[0]&3] with four
-// symbolic bucket values (all collision patterns, including the constant hash).
-func VerifC20_history() {
-	capacity := vrt.Range("cap", 1, vrt.Param("CAP", 3))
-	es := vrt.Range("es", vrt.Param("ESMIN", 2), vrt.Param("ES", 2))
-	fixed := vrt.Choose("fixed", 2) == 1
+// runC20 runs a history of n operations on a fresh set and compares with the reference set.
+// script == nil: every operation chooses its kind (Add/Remove) and key length minLen..es+1;
+// otherwise script[t] = {kind, key length} is prescribed. Key bytes are always symbolic.
+// hash = T[key[0]&3] (T[0] for the empty key) with four symbolic bucket values: all collision patterns
+// between the four key classes, including the constant hash.
+func runC20(capacity, es int, fixed bool, n, minLen int, script [][2]int) {
 	var tab [4]byte
 	for i := 0; i < 4; i++ {
 		tab[i] = vrt.Byte("hash")
@@ -83,14 +82,17 @@ func VerifC20_history() {
 	set, err := NewHashSet(capacity, es, fixed, hashf)
 	vrt.Assert(err == nil && set != nil, "C20/new")
 
-	n := vrt.Range("n", 0, vrt.Param("N", 3))
-	minLen := vrt.Param("MINLEN", 1)
 	h := &histC20{kind: make([]int, n), key: make([][]byte, n), valid: make([]bool, n), eff: make([]bool, n)}
 	size := 0
 	shortAdd := false
 	for t := 0; t < n; t++ {
-		kind := vrt.Choose("kind", 2)
-		kl := vrt.Range("klen", minLen, es+1)
+		var kind, kl int
+		if script != nil {
+			kind, kl = script[t][0], script[t][1]
+		} else {
+			kind = vrt.Choose("kind", 2)
+			kl = vrt.Range("klen", minLen, es+1)
+		}
 		key := vrt.Bytes("key", kl)
 		valid := validLenC20(fixed, es, kl)
 		before := memberC20(h, t, key)
@@ -134,4 +136,29 @@ func VerifC20_history() {
 	} else {
 		vrt.Assert(!got, "C20/invalid-length-not-member")
 	}
+}
+
+// VerifC20_history: every history of <= N Add/Remove operations on a set of capacity 1..CAP, element size
+// ESMIN..ES, fixed or variable key length; keys symbolic with lengths MINLEN..ES+1.
+func VerifC20_history() {
+	capacity := vrt.Range("cap", 1, vrt.Param("CAP", 3))
+	es := vrt.Range("es", vrt.Param("ESMIN", 2), vrt.Param("ES", 2))
+	fixed := vrt.Choose("fixed", 2) == 1
+	n := vrt.Range("n", 0, vrt.Param("N", 3))
+	runC20(capacity, es, fixed, n, vrt.Param("MINLEN", 1), nil)
+}
+
+// VerifC20_chain: collision-chain deletion and free-list reuse with valid keys only: K Adds, one Remove,
+// one more Add (K = 2..CAP), capacity CAP, then an arbitrary probe. Keys and bucket assignment symbolic.
+func VerifC20_chain() {
+	capacity := vrt.Param("CAP", 3)
+	es := vrt.Param("ES", 2)
+	fixed := vrt.Choose("fixed", 2) == 1
+	k := vrt.Range("adds", 2, capacity)
+	var script [][2]int
+	for i := 0; i < k; i++ {
+		script = append(script, [2]int{kAddC20, es})
+	}
+	script = append(script, [2]int{kRemoveC20, es}, [2]int{kAddC20, es})
+	runC20(capacity, es, fixed, len(script), es, script)
 }
